@@ -422,12 +422,19 @@ class World(BaseWorld):
         if op.get("interrupt_at"):
             # F5: the call is interrupted at an arbitrary line inside the library; whatever it
             # left behind, the same call made again right afterwards must give the right answer
+            tracer = LineTracer(lib_prefix(), "interrupt", op["interrupt_at"])
             try:
-                with LineTracer(lib_prefix(), "interrupt", op["interrupt_at"]):
+                with tracer:
                     fn(dict(op, interrupt_at=None))
                 self.note("F5_missed")
             except Interrupt:
                 self.note("F5_fired")
+            except Exception:
+                if not tracer.fired:
+                    raise
+                # the injected KeyboardInterrupt landed inside a C extension calling back into
+                # Python (numpy reading a Dim as a shape), which re-raised it as another exception
+                self.note("F5_fired_and_converted_by_a_c_extension")
             W.MON.fired.clear()
         out = fn(op)
         self.monitor_after_op(op)
